@@ -51,6 +51,18 @@ def cases():
     C("try/except-var-scope", lambda b, t, h: E(S("do"), E(S("try"), b, X(S("e"), t)(h)), S("e")), 3, [B, T, B], fn=f)
     C("try/except-var-setv-inside", lambda b, t, v: E(S("do"), E(S("try"), b, X(S("e"), t)(E(S("setv"), S("e"), v), S("e"))), S("e")),
       3, [B, T, ("E", "SE")], fn=f)
+    # an except variable is visible in its own handler only: sibling handlers, else, finally and the code after the
+    # try see the outer variable of the same name
+    C("try/except-var-then-sibling-reads-outer", lambda b, t1, h1, t2, h2: E(S("try"), b, X(S("e"), t1)(h1, S("e")), X(t2)(h2, S("e"))),
+      5, [B, T, ("E", "SE"), T, ("E", "SE")], kind="arity_bounded", fn=f)
+    C("try/except-var-then-sibling-sets-outer", lambda b, t1, h1, t2, v: E(S("do"), E(S("try"), b, X(S("e"), t1)(h1), X(t2)(E(S("setv"), S("e"), v))), S("e")),
+      5, [B, T, ("E", "SE"), T, ("E", "SE")], kind="arity_bounded", fn=f)
+    C("try/except-var-else-finally-read-outer", lambda b, t, h, o, fi: E(S("try"), b, X(S("e"), t)(h), E(S("else"), o, S("e")), E(S("finally"), S("e"), fi)),
+      5, [B, T, ("E", "SE"), ("E", "SE"), ("E", "SE")], fn=f)
+    C("try/two-named-handlers", lambda b, t1, t2: E(S("try"), b, X(S("e"), t1)(S("e")), X(S("e"), t2)(S("e"))), 3, [B, T, T],
+      kind="arity_bounded", fn=f)
+    C("try/body-reads-outer-e", lambda b, t, h: E(S("try"), b, S("e"), X(S("e"), t)(h)), 3, [("E", "SE"), T, B], fn=f)
+    C("try/except-var-in-nested-fn", lambda b, t: E(S("try"), b, X(S("e"), t)(E(E(S("fn"), List([]), S("e"))))), 2, [B, T], fn=f)
     # nesting depth 2
     C("nest/try-in-try-body", lambda b, t, h, fi: E(S("try"), E(S("try"), b, X(t)(h)), E(S("finally"), fi)), 4, [B, T, B, B])
     C("nest/try-in-handler", lambda b, t, h, fi: E(S("try"), b, X(t)(E(S("try"), h, E(S("finally"), fi)))), 4, [B, T, B, B])
